@@ -56,7 +56,7 @@ def _pos(lo=1e-3, hi=10.0):
 
 
 @st.composite
-def iso_data(draw, min_points=1, max_points=12, desorption=True, grid=None):
+def iso_data(draw, min_points=1, max_points=12, desorption=True, grid=None, strict_loading=False):
     """Strictly increasing adsorption pressures (cumulative sums), optional strictly decreasing desorption leg;
     loadings non-decreasing on the adsorption leg. `grid` rounds values to that many decimals."""
     n_ads = draw(st.integers(min_points, max_points))
@@ -66,7 +66,8 @@ def iso_data(draw, min_points=1, max_points=12, desorption=True, grid=None):
     for i in incs:
         acc += i * scale
         p.append(acc)
-    lincs = draw(st.lists(st.one_of(_pos(), _pos(), st.just(0.0)), min_size=n_ads, max_size=n_ads))
+    lincs = draw(st.lists(_pos() if strict_loading else st.one_of(_pos(), _pos(), st.just(0.0)), min_size=n_ads,
+                          max_size=n_ads))
     l, acc = [], draw(_pos(0.01, 1.0))
     for i in lincs:
         acc += i
@@ -78,7 +79,7 @@ def iso_data(draw, min_points=1, max_points=12, desorption=True, grid=None):
         pmax = p[-1]
         for f in fr:
             p.append(pmax * f)
-            l.append(l[n_ads - 1] * (0.3 + 0.7 * f) + draw(_pos(0.001, 0.5)))
+            l.append(l[n_ads - 1] * (0.3 + 0.7 * f) + (0.0 if strict_loading else draw(_pos(0.001, 0.5))))
             branch.append(1)
     if grid is not None:
         p = [round(v, grid) for v in p]
@@ -96,12 +97,12 @@ _meta_values = st.one_of(st.text(alphabet="abcXYZ é-_", min_size=1, max_size=6)
 
 @st.composite
 def point_desc(draw, allow_fraction=True, min_points=1, max_points=12, desorption=True, extras=True, meta=True,
-               handicap=0.0, grid=None):
+               handicap=0.0, grid=None, strict_loading=False, force_extras=False):
     """A full point-isotherm descriptor for pbt.case.build_point."""
     u = draw(units(allow_fraction))
     at = draw(ads_T())
     mat = draw(material())
-    data = draw(iso_data(min_points, max_points, desorption, grid))
+    data = draw(iso_data(min_points, max_points, desorption, grid, strict_loading))
     d = {
         "units": u, "adsorbate": at["adsorbate"], "T_K": at["T_K"],
         "T": at["T_K"] if u["temperature_unit"] == "K" else at["T_K"] - 273.15,
@@ -111,7 +112,7 @@ def point_desc(draw, allow_fraction=True, min_points=1, max_points=12, desorptio
     mode = draw(st.sampled_from(["guess", "explicit", "explicit"]))
     d["branch"] = "guess" if mode == "guess" else data["branch_true"]
     d["branch_true"] = data["branch_true"]
-    if extras and draw(st.booleans()):
+    if extras and (force_extras or draw(st.booleans())):
         d["extra"] = {"enthalpy": draw(st.lists(st.floats(-50, 50).map(lambda x: round(x, 4)), min_size=n, max_size=n))}
         if draw(st.booleans()):
             d["extra"]["note"] = draw(st.lists(st.sampled_from(["a", "b", "c d"]), min_size=n, max_size=n))
